@@ -17,7 +17,9 @@ Import ListNotations.
 
 Definition name := nat.
 
-(* Values that flow through a pipeline: an int, a str, a float64 array, an int64 array. *)
+(* Values that flow through a pipeline: an int (bools count as ints, as for isinstance), an object that
+   is neither an int nor an array (VStr: a str -- including one spelled like a node name or alias --, a
+   float, a list, a dict; the number only tells them apart), a float64 array, an int64 array. *)
 Inductive val := VInt (z : Z) | VStr (z : Z) | VArrF (z : Z) | VArrI (z : Z).
 Definition is_int (v : val) : bool := match v with VInt _ => true | _ => false end.
 (* what a (non-None part of a) parameter annotation accepts: int, np.ndarray[Any, np.dtype[np.float64]],
@@ -42,12 +44,16 @@ Definition accepts (t : tykind) (v : val) : bool :=
 Inductive exn := EMissing | EType | ECycle | EFailed | ENoNode | EFuel | EComp (k : Z).
 Inductive result := Ok (v : option val) | Err (e : exn).
 
-(* Component body: an interaction tree over forcing lazy inputs.  Errors of a forced input
-   propagate (components do not catch them). *)
+(* Component body: an interaction tree over forcing lazy inputs.
+   [Force i k]      `v = in_data[i].get()`, then k v; an exception of the forced input propagates.
+   [TryForce i k h] `try: v = in_data[i].get()  except Exception as e: <h e>  else: <k v>` -- the body
+                    catches whatever the forced input raised (the component's own exception, a runner
+                    diagnostic, the TypeError of DeferredRun.get's own type check) and carries on. *)
 Inductive prog :=
 | Ret (v : option val)
 | Raise (e : exn)
-| Force (i : nat) (k : option val -> prog).
+| Force (i : nat) (k : option val -> prog)
+| TryForce (i : nat) (k : option val -> prog) (h : exn -> prog).
 
 (* A parameter after wiring resolution.  typed=false: no annotation (or a bare TypeVar, which
    accepts everything).  nullable: the annotation accepts None. *)
@@ -150,6 +156,22 @@ Fixpoint exec (ps : list param) (required : bool) (p : prog) (s : st) : st * res
                    match r with
                    | Err e => (s1, Err e)
                    | Ok v => if p_typed q && negb (p_compat q v) then (s1, Err EType)
+                             else exec ps required (k v) s1
+                   end
+               end
+      end
+  | TryForce i k h =>
+      match nth_error ps i with
+      | None => (s, Err ENoNode)
+      | Some q =>
+          if negb (p_lazy q) then (s, Err ENoNode)
+          else match p_src q with
+               | None => exec ps required (k None) s
+               | Some src =>
+                   let '(s1, r) := rec s src (required && p_strict q) in
+                   match r with
+                   | Err e => exec ps required (h e) s1               (* caught: the body carries on *)
+                   | Ok v => if p_typed q && negb (p_compat q v) then exec ps required (h EType) s1
                              else exec ps required (k v) s1
                    end
                end
@@ -283,6 +305,23 @@ Fixpoint den_exec (ps : list param) (required : bool) (p : prog) (tr : list name
                    end
                end
       end
+  | TryForce i k h =>
+      match nth_error ps i with
+      | None => (DErr ENoNode, tr)
+      | Some q =>
+          if negb (p_lazy q) then (DErr ENoNode, tr)
+          else match p_src q with
+               | None => den_exec ps required (k None) tr
+               | Some src =>
+                   let '(d, t) := drec src (required && p_strict q) in
+                   match d with
+                   | DErr e => den_exec ps required (h e) (tr ++ t)
+                   | _ => let v := to_opt d in
+                          if p_typed q && negb (p_compat q v) then den_exec ps required (h EType) (tr ++ t)
+                          else den_exec ps required (k v) (tr ++ t)
+                   end
+               end
+      end
   end.
 
 (* value of a node for a consumer that does (required) or does not require it.
@@ -389,7 +428,9 @@ Definition build (b : builder) : option graph :=
 
 (* editing a builder between builds: default_connection(name, node) replaces the default of that
    parameter name; connect(comp, name=node) sets/overrides an explicit connection; alias(a, node) *)
-Inductive edit := EDefault (pname : nat) (t : name) | EConnect (c : name) (pname : nat) (t : name) | EAlias (a t : name).
+Inductive edit :=
+| EDefault (pname : nat) (t : name) | EConnect (c : name) (pname : nat) (t : name) | EAlias (a t : name)
+| EAddLit (n : name) (v : bnode).       (* connect(c, p=<a value that is not a node>) first creates a literal node *)
 Definition set_conn (pname : nat) (t : name) (p : bparam) : bparam :=
   if Nat.eqb (bp_name p) pname
   then {| bp_name := bp_name p; bp_conn := Some t; bp_lazy := bp_lazy p; bp_typed := bp_typed p;
@@ -409,6 +450,7 @@ Definition apply_edit (b : builder) (e : edit) : builder :=
                                    else nn) (b_nodes b);
          b_defaults := b_defaults b; b_aliases := b_aliases b |}
   | EAlias a t => {| b_nodes := b_nodes b; b_defaults := b_defaults b; b_aliases := (a, t) :: b_aliases b |}
+  | EAddLit n v => {| b_nodes := b_nodes b ++ [(n, v)]; b_defaults := b_defaults b; b_aliases := b_aliases b |}
   end.
 
 (* Pipeline.node(name): aliases first *)
@@ -431,6 +473,7 @@ Inductive bprog :=
 | BRet (e : bexp)
 | BRaise (k : Z)
 | BForce (i : nat) (k : bprog)
+| BTryForce (i : nat) (k e : bprog)              (* try: forced[i] = args[i].get()  except Exception: e  else: k *)
 | BIfNone (a : atom) (t e : bprog).
 
 Definition atom_val (args : list (option val)) (forced : list (nat * option val)) (a : atom) : option val :=
@@ -458,6 +501,7 @@ Fixpoint interp (b : bprog) (args : list (option val)) (forced : list (nat * opt
   | BRet e => Ret (eval_bexp args forced e)
   | BRaise k => Raise (EComp k)
   | BForce i k => Force i (fun r => interp k args ((i, r) :: forced))
+  | BTryForce i k e => TryForce i (fun r => interp k args ((i, r) :: forced)) (fun _ => interp e args forced)
   | BIfNone a t e => if is_none (atom_val args forced a) then interp t args forced else interp e args forced
   end.
 Definition body_of (b : bprog) : list (option val) -> prog := fun args => interp b args [].
@@ -536,19 +580,23 @@ Definition agree_run (with_spec : bool) (fuel : nat) (g : graph) (aliases : list
 
 (* a whole case: the builder, whether build() raised "pipeline has cycles", and the runs made one
    after another on the same pipeline object *)
-Definition agree_case (b : builder) (built : bool) (runs : list obs_run) : bool :=
+(* with_spec = false for cases in which some body catches (BTryForce): the memo-free specification
+   [den] is stated for bodies that do not catch; the runner model is compared in every case *)
+Definition agree_case_gen (with_spec : bool) (b : builder) (built : bool) (runs : list obs_run) : bool :=
   match build b with
   | None => negb built
-  | Some g => built && forallb (agree_run true (2 + length g) g (b_aliases b)) runs
+  | Some g => built && forallb (agree_run with_spec (2 + length g) g (b_aliases b)) runs
   end.
+Definition agree_case := agree_case_gen true.
 
 (* a builder history: edits, then build() and runs on the built pipeline; the builder carries on to
    the next stage.  Every built pipeline must be the one the builder's state at that moment denotes
    (build() is a function of that state and leaves it unchanged). *)
-Fixpoint agree_history (b : builder) (stages : list (list edit * bool * list obs_run)) : bool :=
+Fixpoint agree_history_gen (with_spec : bool) (b : builder) (stages : list (list edit * bool * list obs_run)) : bool :=
   match stages with
   | [] => true
   | (edits, built, runs) :: t =>
       let b' := fold_left apply_edit edits b in
-      agree_case b' built runs && agree_history b' t
+      agree_case_gen with_spec b' built runs && agree_history_gen with_spec b' t
   end.
+Definition agree_history := agree_history_gen true.
